@@ -9,7 +9,7 @@ use std::collections::BTreeMap;
 
 pub static PROP: Prop = Prop {
     id: "C20",
-    rule: "(a) serializable value trees decoded from a proptest choice vector (null, bool, integers over the whole i64 range with boundary bias, finite floats incl. -0.0, 1e21, 5e-324 and integral floats, strings over an alphabet with quotes, backslashes, control characters, newlines, multi-byte characters, format-significant words (true, null, ~, 1.5, 2001-01-01, empty) , lists, tuples, string-keyed maps with awkward keys, nesting depth <= 5) passed into a script that calls X.to_string, X.from_string, X.to_string, X.from_string for X in json / yaml / toml: the first result equals the input in normal form (sequences become tuples; integral floats stay floats), the second round trip is the identity on value and text; for toml a tree containing null, or whose top level is not a map, must be rejected with an error. (b) corrupted documents: every serialized text from (a) mutated by deleting, duplicating, swapping or replacing characters, truncating, or splicing format-specific tokens (huge integers, 1e999, deep nesting, bad escapes, tabs, anchors and aliases, dates), plus raw choice-vector noise: from_string returns a value or an error and never panics; any value it returns must itself survive to_string / from_string unchanged when it is serializable; a complete json / toml document followed on a new line by further data (a closing bracket, a comma, a second document, a bare word) must be rejected. (c) Rust data (structs, unit / newtype / tuple / struct enum variants, options, vectors, tuples, string-keyed and integer-keyed maps, i8..i64, u8..u64, f32, f64, bool, char, String, unit) generated from a choice vector: from_koto_value(to_koto_value(x)) == x; u64 values above i64::MAX must be rejected with an error. Non-trivial: (a) the tree nests a container or holds an awkward string/number; (b) every case; (c) every case.",
+    rule: "(a) serializable value trees decoded from a proptest choice vector (null, bool, integers over the whole i64 range with boundary bias, finite floats incl. -0.0, 1e21, 5e-324 and integral floats, strings over an alphabet with quotes, backslashes, control characters, newlines, multi-byte characters, format-significant words (true, null, ~, 1.5, 2001-01-01, empty) , lists, tuples, string-keyed maps with awkward keys, nesting depth <= 5) passed into a script that calls X.to_string, X.from_string, X.to_string, X.from_string for X in json / yaml / toml: the first result equals the input in normal form (sequences become tuples; integral floats stay floats), the second round trip is the identity on value and text; for toml a tree containing null, or whose top level is not a map, must be rejected with an error. (b) corrupted documents: every serialized text from (a) mutated by deleting, duplicating, swapping or replacing characters, truncating, or splicing format-specific tokens (huge integers, 1e999, deep nesting, bad escapes, tabs, anchors and aliases, dates), plus raw choice-vector noise: from_string returns a value or an error and never panics; any value it returns must itself survive to_string / from_string unchanged when it is serializable; a complete json / toml document followed on a new line by further data (a closing bracket, a comma, a second document, a bare word) must be rejected. (c) Rust data (structs, unit / newtype / tuple / struct enum variants, options, vectors, tuples, string-keyed and integer-keyed maps, i8..i64, u8..u64, f32, f64, bool, char, String, unit) generated from a choice vector: from_koto_value(to_koto_value(x)) == x; u64 values above i64::MAX must be rejected with an error. Documents holding an integer outside i64 (json: up to u64::MAX; yaml: the whole signed / unsigned 128-bit range, decimal and hex) anywhere must be rejected. Non-trivial: (a) the tree nests a container or holds an awkward string/number; (b) every case; (c) every case.",
     assumptions: &[
         "nested options (Some(None)) are not generated: self-describing formats cannot represent them",
         "NaN and infinities are excluded as the property states; yaml documents are single documents",
@@ -616,7 +616,11 @@ fn run_shard(ctx: &mut Ctx) {
     // out-of-range integers: documents that hold an integer in (i64::MAX, u64::MAX] anywhere must be rejected
     if ctx.shard == 0 {
         for fmt in ["json", "yaml"] {
-            for n in ["9223372036854775808", "9223372036854775809", "12345678901234567890", "18446744073709551614", "18446744073709551615"] {
+            // (yaml integers are read with up to 128 bits: the whole unsigned and signed 128-bit range outside i64)
+            let wide = ["18446744073709551616", "170141183460469231731687303715884105727", "170141183460469231731687303715884105728", "340282366920938463454151235394913435647", "340282366920938463454151235394913435648", "340282366920938463463374607431768211454", "340282366920938463463374607431768211455", "-9223372036854775809", "-170141183460469231731687303715884105728", "0xFFFFFFFFFFFFFFFFFFFFFFFFFFFFFFFF", "0x8000000000000000"];
+            let base = ["9223372036854775808", "9223372036854775809", "12345678901234567890", "18446744073709551614", "18446744073709551615"];
+            let all: Vec<&str> = if fmt == "yaml" { base.iter().chain(wide.iter()).copied().collect() } else { base.to_vec() };
+            for n in all {
                 let docs: Vec<String> = if fmt == "json" {
                     vec![n.to_string(), format!("[{n}]"), format!("{{\"a\": {n}}}"), format!("{{\"a\": [1, {{\"b\": {n}}}]}}"), format!("[1, 2, [3, {n}], 4]")]
                 } else {
